@@ -91,6 +91,7 @@ type conn struct {
 	mu           sync.Mutex // guards the following
 	closeNotifyc chan struct{}
 	clientGone   bool
+	done         bool // serve has returned, the connection is gone
 }
 
 func (c *conn) closeNotify() <-chan struct{} {
@@ -98,6 +99,12 @@ func (c *conn) closeNotify() <-chan struct{} {
 	defer c.mu.Unlock()
 	if c.closeNotifyc == nil {
 		c.closeNotifyc = make(chan struct{})
+		if c.done {
+			// Nobody is left to notice: the connection is already gone.
+			close(c.closeNotifyc)
+			c.clientGone = true
+			return c.closeNotifyc
+		}
 
 		if msc, isMulti := c.rwc.(MultistreamConn); isMulti {
 			// MultistreamConn provides it's own error handler
@@ -137,6 +144,22 @@ func (c *conn) notifyClientGone() {
 		close(c.closeNotifyc) // unblock readers
 		c.clientGone = true
 	}
+}
+
+// finish runs when serve returns. It notifies CloseNotify callers whatever
+// made the connection end, and releases the notifier goroutine, which may
+// be blocked writing into a pipe that is no longer read.
+func (c *conn) finish() {
+	c.mu.Lock()
+	c.done = true
+	c.mu.Unlock()
+	c.notifyClientGone()
+	c.sr.Lock()
+	c.sr.pr, c.sr.pipeCopyF = nil, nil // installed but never started
+	if pr, ok := c.sr.r.(*io.PipeReader); ok {
+		pr.Close()
+	}
+	c.sr.Unlock()
 }
 
 // Create new connection from rwc.
@@ -187,6 +210,7 @@ func (c *conn) serve() {
 				c.rwc.RemoteAddr().String(), err, buf)
 		}
 		c.rwc.Close()
+		c.finish()
 	}()
 	if tlsConn, ok := c.rwc.(*tls.Conn); ok {
 		if err := tlsConn.Handshake(); err != nil {
